@@ -35,10 +35,10 @@ ASSUMPTIONS = [
     "KF2 (rp2_jp without -g: default language ja has no templates) and KF3 (rp2_jp refuses -f together with -t) are recorded findings, keyed by country, options and error message",
 ]
 SETTINGS: Dict[str, Dict[str, Any]] = {
-    "quick": {"inputs": 4, "budget_s": 90, "minimums": {"cli_runs": 540, "nontrivial": 400, "inverted_cut_runs": 20, "runs_with_config_method_schedule": 28}, "required_tags": {"tag_country": list(COUNTRIES), "tag_filter": ["none", "from", "to", "from+to"]}},
+    "quick": {"inputs": 5, "budget_s": 100, "minimums": {"cli_runs": 680, "nontrivial": 500, "inverted_cut_runs": 20, "runs_with_config_method_schedule": 36}, "required_tags": {"tag_country": list(COUNTRIES), "tag_filter": ["none", "from", "to", "from+to"]}},
     "thorough": {"inputs": 32, "budget_s": 480, "minimums": {"cli_runs": 3000, "nontrivial": 2500, "inverted_cut_runs": 150, "runs_with_config_method_schedule": 150}, "required_tags": {"tag_country": list(COUNTRIES), "tag_filter": ["none", "from", "to", "from+to"]}},
 }
-SHAPES = ["all-types", "inverted-dates", "same-instant-transfer-then-sale", "multi-asset-sparse", "fully-sold+income-only", "single-asset", "multi-asset", "sparse-years", "mixed-offsets"]
+SHAPES = ["all-types", "inverted-dates", "same-instant-transfer-then-sale", "many-lots+sold-in-thirds", "multi-asset-sparse", "fully-sold+income-only", "single-asset", "multi-asset", "sparse-years", "mixed-offsets"]
 
 
 def matrix() -> List[Tuple[str, Optional[str], Optional[str], str]]:
@@ -75,6 +75,9 @@ def shaped_input(rng: Any, shape: str) -> Dict[str, Dict[str, Any]]:
         first, _ = families.inverted_dates(rng, "AAA", at_new_year=True)
         second, _ = families.inverted_dates(rng, "BBB", at_new_year=rng.random() < 0.5)
         return {"AAA": first, "BBB": second}
+    if shape == "many-lots+sold-in-thirds":
+        # an asset whose fractions outnumber its taxable events by dozens; an asset sold completely in thirds / sevenths
+        return {"AAA": families.many_lots_one_sale(rng, "AAA"), "BBB": families.sold_in_thirds(rng, "BBB")}
     if shape == "same-instant-transfer-then-sale":
         return {"AAA": families.same_instant_transfer_then_sale(rng, "AAA"), "BBB": families.same_instant_transfer_then_sale(rng, "BBB")}
     if shape == "mixed-offsets":
@@ -97,6 +100,8 @@ def shaped_input(rng: Any, shape: str) -> Dict[str, Dict[str, Any]]:
     income = families.HB(asset="BBB")
     for k in range(rng.randint(1, 4)):
         income.acquire(t + timedelta(days=200 * k), rng.choice((1, 2)), 10 + k, ttype=rng.choice(EARN_TYPES))
+    if rng.random() < 0.5:
+        return {"AAA": families.sold_in_thirds(rng, "AAA"), "BBB": income.done(rng), "CCC": families.many_lots_one_sale(rng, "CCC")}
     return {"AAA": sold.done(rng), "BBB": income.done(rng)}
 
 
